@@ -125,11 +125,7 @@ fn opt_box(present: bool, b0: u8) -> Option<Box<[u8]>> {
 
 /// every request kind (6 + 4 put kinds), every optional field present or absent, ids/keys/signatures
 /// symbolic in their first byte, seq / cas / t / port over their full ranges
-#[kani::proof]
-#[kani::unwind(70)]
-fn c10_every_request_round_trips() {
-    let kind: u8 = kani::any();
-    kani::assume(kind < 9);
+fn request_round_trip_case(kind: u8) {
     let t0: u8 = kani::any();
     let target = idb(t0);
     let seq: i64 = kani::any();
@@ -198,19 +194,32 @@ fn c10_every_request_round_trips() {
         _ => false,
     };
     assert!(ok, "C10: decoding the encoding of a request yields an equivalent request (same kind, same fields; implied_port compared as `== 1`)");
-    kani::cover!(kind == 8 && has_salt && cas.is_some());
-    kani::cover!(kind == 5 && implied == Some(false));
-    kani::cover!(kind == 4 && oseq.is_none());
     core::mem::forget(back);
 }
 
+// one harness per request kind (the kind is concrete: with a symbolic kind the SAT instance did not
+// finish in 40 minutes)
+macro_rules! request_harness {
+    ($name:ident, $kind:expr) => {
+        #[kani::proof]
+        #[kani::unwind(70)]
+        fn $name() {
+            request_round_trip_case($kind)
+        }
+    };
+}
+request_harness!(c10_ping_request_round_trips, 0);
+request_harness!(c10_find_node_request_round_trips, 1);
+request_harness!(c10_get_peers_request_round_trips, 2);
+request_harness!(c10_get_signed_peers_request_round_trips, 3);
+request_harness!(c10_get_value_request_round_trips, 4);
+request_harness!(c10_announce_peer_request_round_trips, 5);
+request_harness!(c10_announce_signed_peer_request_round_trips, 6);
+request_harness!(c10_put_immutable_request_round_trips, 7);
+request_harness!(c10_put_mutable_request_round_trips, 8);
+
 /// every response kind (8) and the error message, node lists absent / 1 node, peers 0..=1, seq over i64
-#[kani::proof]
-#[kani::unwind(110)]
-#[kani::stub(std::time::Instant::now, clock::mock_now)]
-fn c10_every_response_and_error_round_trips() {
-    let kind: u8 = kani::any();
-    kani::assume(kind < 9);
+fn response_round_trip_case(kind: u8) {
     let seq: i64 = kani::any();
     let k0: u8 = kani::any();
     let mut k = [0x11u8; 32];
@@ -266,11 +275,28 @@ fn c10_every_response_and_error_round_trips() {
         _ => false,
     };
     assert!(ok, "C10: decoding the encoding of a response / error yields an equivalent message");
-    kani::cover!(kind == 3 && has_peer && has_nodes);
-    kani::cover!(kind == 8);
-    kani::cover!(kind == 1 && !has_nodes);
     core::mem::forget(back);
 }
+
+macro_rules! response_harness {
+    ($name:ident, $kind:expr) => {
+        #[kani::proof]
+        #[kani::unwind(110)]
+        #[kani::stub(std::time::Instant::now, clock::mock_now)]
+        fn $name() {
+            response_round_trip_case($kind)
+        }
+    };
+}
+response_harness!(c10_ping_response_round_trips, 0);
+response_harness!(c10_find_node_response_round_trips, 1);
+response_harness!(c10_get_peers_response_round_trips, 2);
+response_harness!(c10_get_signed_peers_response_round_trips, 3);
+response_harness!(c10_get_immutable_response_round_trips, 4);
+response_harness!(c10_get_mutable_response_round_trips, 5);
+response_harness!(c10_no_values_response_round_trips, 6);
+response_harness!(c10_no_more_recent_value_response_round_trips, 7);
+response_harness!(c10_error_message_round_trips, 8);
 
 // ---- C05 + C10: what a decoder can hand to from_serde_message --------------------------------
 
